@@ -371,6 +371,11 @@ def _dirmodes(res, chunk):
                 with open(os.path.join(d, 'in', name), 'wb') as f:
                     f.write(pelgen.encode_pel(pelgen.pel_from_spec({'eid': 0x500001F0 + len(name), 'plid': 0x500001F0 + len(name), 'sections': [
                         {'t': 'PS'}, {'t': 'UD', 'comp': 0x2000, 'sub': 1, 'payload': payload.hex()}]})))
+            # ... and one whose time stamps are not dates (corrupted BCD bytes: month 13, day 99, 25:61:7A; all zero): the
+            # decoder shows the digits as stored, nothing may trip over them later
+            with open(os.path.join(d, 'in', 'odd_timestamps'), 'wb') as f:
+                f.write(pelgen.encode_pel(pelgen.pel_from_spec({'eid': 0x500001EE, 'plid': 0x500001EE, 'create': '0000000000000000',
+                                                               'commit': '2024139925617a00', 'sections': [{'t': 'PS'}]})))
             for mode in (['-l'], ['-a'], ['-n'], ['--plid', '500001FF'], ['--src', 'BD8D'], ['-j', '-o', os.path.join(d, 'out')], ['-j'],
                          ['-a', '-x'], ['-l', '-x']):
                 case = {'dirmodes': True, 'base': chunk['base'], 'opt': opt, 'bad': k, 'mode': [m if not m.startswith('/') else '<out>' for m in mode]}
